@@ -3,6 +3,7 @@ C07 (join barriers), C06 (published deltas), C19 (independence of set iteration 
 barrier computation).
 -/
 import OrqModel.Proofs.StatusTrace
+import OrqModel.Proofs.RetryBound
 
 namespace Orq
 
@@ -197,5 +198,85 @@ theorem C07_arrival_merges (nk : TaskKey) (backref : TransId) (idx : Nat) (outId
     simp only [Option.isSome_none, Bool.false_eq_true, if_false, M.modifySt, M.modify]
     show (c.st.staged ++ [_]).length = _
     simp
+
+/-! ### C07: the first report consumes the staged entry -/
+
+/-- no two staged entries have the same (task, route) -/
+def StagedUnique (st : WState) : Prop :=
+  st.staged.Pairwise fun a b => ¬ (a.id = b.id ∧ a.route = b.route)
+
+theorem eraseGo_find (k : TaskKey) : ∀ (l : List Staged),
+    l.Pairwise (fun a b => ¬ (a.id = b.id ∧ a.route = b.route)) →
+    (WState.eraseStaged.go k l).find? (fun x => x.id == k.1 && x.route == k.2) = none := by
+  intro l
+  induction l with
+  | nil => intro _; rfl
+  | cons x xs ih =>
+    intro hp
+    obtain ⟨hx, hxs⟩ := List.pairwise_cons.mp hp
+    unfold WState.eraseStaged.go
+    split
+    · next hm =>
+      simp only [Bool.and_eq_true, beq_iff_eq] at hm
+      rw [List.find?_eq_none]
+      intro y hy hy'
+      simp only [Bool.and_eq_true, beq_iff_eq] at hy'
+      exact hx y hy ⟨hm.1.trans hy'.1.symm, hm.2.trans hy'.2.symm⟩
+    · next hm =>
+      rw [List.find?_cons]
+      simp only [hm]
+      exact ih hxs
+
+theorem logEntry_st (e : ErrEntry) (c c' : Cond) (u : Unit) (h : logEntry e c = (.ok u, c')) : c'.st = c.st := by
+  simp only [logEntry, M.modify, Prod.mk.injEq, true_and] at h
+  rw [← h]
+  split <;> rfl
+
+/-- **C07** (one step; the uniqueness of staged keys is a hypothesis, not an invariant proved along
+    histories): the first report for an offered task — a join instance in particular — consumes
+    its staged entry, so `get_next_tasks`, which offers only staged entries
+    (`C01_offer_from_staged`), cannot offer that instance again unless a transition stages it anew -/
+theorem C07_report_consumes_entry (k : TaskKey) (sx : Staged) (ev : Event) (c c' : Cond) (u : Unit)
+    (hu : StagedUnique c.st) (hs : c.st.getStaged? k = some sx) (hi : sx.items = none)
+    (h : noteEvent k (some sx) ev c = (.ok u, c')) : c'.st.getStaged? k = none := by
+  unfold noteEvent at h
+  obtain ⟨_, c1, h1, g1⟩ := M.bind_ok h
+  obtain ⟨_, c2, h2, g2⟩ := M.bind_ok g1
+  simp only [hi, Option.isNone_none, if_true] at h1
+  have hc1 : c1 = { c with st := c.st.removeStaged k } := by
+    simp only [M.modifySt, M.modify, Prod.mk.injEq, true_and] at h1
+    exact h1.symm
+  have hst1 : c1.st.getStaged? k = none := by
+    rw [hc1]
+    show (c.st.removeStaged k).getStaged? k = none
+    unfold WState.removeStaged
+    rw [hs]
+    simp only [hi, Option.getD_none, List.any_nil]
+    exact eraseGo_find k _ hu
+  have hc2 : c2.st = c1.st := by
+    cases ev with
+    | action s r => exact (congrArg Cond.st (pure_ok h2).2).symm
+    | engine cmd => exact (congrArg Cond.st (pure_ok h2).2).symm
+    | item i s r a =>
+      simp only [hi] at h2
+      cases h2
+  have hc3 : c'.st = c2.st := by
+    cases ev with
+    | action s r =>
+      cases s <;> first | exact logEntry_st _ _ _ _ g2 | exact (congrArg Cond.st (pure_ok g2).2).symm
+    | engine cmd =>
+      dsimp only at g2
+      split at g2
+      · exact logEntry_st _ _ _ _ g2
+      · exact (congrArg Cond.st (pure_ok g2).2).symm
+    | item i s r a =>
+      simp only [hi] at h2
+      cases h2
+  rw [hc3, hc2]
+  exact hst1
+/-- non-vacuity: two staged instances of one join on different routes are distinct entries -/
+example : StagedUnique { staged := [{ id := "j", route := 0, ctxsIn := [0], prev := [], ready := true },
+                                    { id := "j", route := 1, ctxsIn := [0], prev := [], ready := true }] } := by
+  simp [StagedUnique]
 
 end Orq
